@@ -4,11 +4,11 @@
    canceller, and every schedule (reachable = closure under any thread taking any enabled
    step).  GenFacts/QueueFacts.v proves that the capacity and the synchronisation skeleton in
    the current source are the ones assumed here.
-   PARTIAL: the priority queue (container/heap transcription [heap_push]/[heap_pop]) is tied to
-   the code by the correspondence stream and checked against the sorted-multiset oracle on
-   every run, but its minimality/multiset theorems are not proved yet. *)
+   The priority queue (container/heap transcription [heap_push]/[heap_pop]) is proved to keep the
+   heap order and the multiset, to pop a minimum, and to drain in ascending order (Proofs.C15_Heap). *)
 From Coq Require Import List NArith Bool.
-From Wesh Require Import Model.C15_Queue Proofs.C15_Queue.
+From Coq Require Import Permutation Sorted.
+From Wesh Require Import Model.C15_Queue Proofs.C15_Queue Proofs.C15_Heap.
 Import ListNotations.
 Open Scope N_scope.
 
@@ -50,8 +50,40 @@ Example C15_nonvacuous :
                       [init [[1]] 1 false] = [s] /\ c_pc s = CDone /\ c_got s = [Some 1] /\ q s = [].
 Proof. eexists. vm_compute. repeat split. Qed.
 
+(* ---- priority queue (internal/queue/priority.go over container/heap) ---- *)
+
+(* Add keeps the heap order and adds exactly the item *)
+Theorem C15_push_keeps_heap :
+  forall l x, heap_ok l -> heap_ok (heap_push l x) /\ Permutation (heap_push l x) (x :: l).
+Proof. exact heap_push_ok. Qed.
+
+(* Next returns an item with the lowest counter, removes exactly it, and keeps the heap order *)
+Theorem C15_pop_returns_minimum :
+  forall l x l', heap_ok l -> heap_pop l = Some (x, l') ->
+    heap_ok l' /\ Permutation l (x :: l') /\ (forall y, In y l -> (x <= y)%N).
+Proof. exact heap_pop_ok. Qed.
+
+Theorem C15_pop_succeeds_on_nonempty : forall l, l <> [] -> exists x l', heap_pop l = Some (x, l').
+Proof. exact heap_pop_nonempty. Qed.
+
+(* NextAll hands over every queued item, in ascending counter order *)
+Theorem C15_drain_sorted :
+  forall fuel l, heap_ok l -> (length l <= fuel)%nat ->
+    Permutation (pop_all fuel l) l /\ StronglySorted (fun a b => (a <= b)%N) (pop_all fuel l).
+Proof. exact pop_all_sorted. Qed.
+
+(* every state reached from the empty queue by the operations of the queue is a heap *)
+Theorem C15_operations_keep_heap : heap_ok [] /\ forall l o, heap_ok l -> heap_ok (fst (pqstep l o)).
+Proof. exact (conj heap_ok_nil pqstep_heap). Qed.
+
+
 Print Assumptions C15_no_lost_wakeup.
 Print Assumptions C15_never_stuck.
 Print Assumptions C15_fifo_exactly_once.
 Print Assumptions C15_cancelled_wait_returns_none.
 Print Assumptions C15_refuted_with_capacity_0.
+Print Assumptions C15_push_keeps_heap.
+Print Assumptions C15_pop_returns_minimum.
+Print Assumptions C15_pop_succeeds_on_nonempty.
+Print Assumptions C15_drain_sorted.
+Print Assumptions C15_operations_keep_heap.
